@@ -24,6 +24,8 @@ import (
 	"errors"
 	"fmt"
 	"os"
+	"regexp"
+	"runtime"
 	"strconv"
 	"strings"
 	"sync"
@@ -67,6 +69,36 @@ func genShare(a hx.Args) {
 	}
 }
 
+var goroutineHdr = regexp.MustCompile(`(?m)^goroutine (\d+) `)
+
+func maxGoroutineID(stacks string) int {
+	mx := 0
+	for _, m := range goroutineHdr.FindAllStringSubmatch(stacks, -1) {
+		if n, _ := strconv.Atoi(m[1]); n > mx {
+			mx = n
+		}
+	}
+	return mx
+}
+
+// shareSpinSignature runs outside the bubble (real time). A share source whose ack timer is armed while it has
+// nothing to fetch or forget loops through shareFetch -> shareAck(nil) without blocking and starts a callback
+// goroutine per turn: goroutine ids grow by thousands per 100 ms while virtual time stands still.
+func shareSpinSignature() string {
+	grab := func() string {
+		buf := make([]byte, 8<<20)
+		return string(buf[:runtime.Stack(buf, true)])
+	}
+	a := grab()
+	time.Sleep(100 * time.Millisecond)
+	b := grab()
+	growth := maxGoroutineID(b) - maxGoroutineID(a)
+	if growth > 200 && strings.Contains(b, "kgo.(*source).loopShareFetch") {
+		return fmt.Sprintf("SPIN:acktimer:%d", growth)
+	}
+	return fmt.Sprintf("NOSPIN:%d", growth)
+}
+
 type shareReqInfo struct {
 	key, ver int16
 	rid, m   int
@@ -93,6 +125,11 @@ func runShare(t *testing.T, tk []string) string {
 	net := &sim.Net{}
 	start := time.Now()
 	now := func() int64 { return time.Since(start).Milliseconds() }
+	// what a HANG outcome shows: the log so far and, measured from outside the bubble, whether goroutines are being
+	// created at a high rate under a loopShareFetch frame while the scenario stands still (the ack-timer spin)
+	partial := func() string { return log.String() + " " + shareSpinSignature() }
+	sim.Partial.Store(&partial)
+	defer sim.Partial.Store(nil)
 
 	// ---- wire view: acknowledgement batches in requests, acknowledge results and acquired ranges in responses
 	var wmu sync.Mutex
